@@ -97,6 +97,11 @@ def addterm_case(draw):
     else:
         spec['init_terms'] = draw(st.lists(signed_term(), min_size=0, max_size=3))
     base_pool = draw(st.lists(core_term(), min_size=1, max_size=3))
+    if draw(st.booleans()):
+        # the same two factors in every arrangement: p*q and q*p are like terms, p/q and q/p are not
+        p_, q_ = draw(atom_name), draw(st.one_of(atom_name, atom_num))
+        base_pool += draw(st.lists(st.sampled_from([p_ + '*' + q_, q_ + '*' + p_, p_ + '/' + q_, q_ + '/' + p_,
+                                                    p_ + ' / ' + q_, q_ + ' * ' + p_]), min_size=2, max_size=4))
     from harness import gen
     spec['adds'] = draw(st.lists(signed_term(pool + base_pool), min_size=0, max_size=gen.size(10, 30)))
     spec['desc'] = draw(st.sampled_from(['', 'a description', 'uses = and # inside']))
